@@ -428,37 +428,51 @@ def gen_pipeline(tier, seed):
         recs.append({"case": i, "fam": c["fam"], "cf": c["cf"], "tog": c["tog"], "model": c["model"], "prog": c["prog"], "sroots": c["sroots"],
                      "perms": [pm["pi"] for pm in c["perms"]], "runs": runs})
     write_ndjson(os.path.join(wd, "cases.ndjson"), recs)
-    harness_run("gen", os.path.join(wd, "cases.ndjson"), os.path.join(wd, "obs.ndjson"), jobs=12)
-    obs = read_ndjson(os.path.join(wd, "obs.ndjson"))
-    crashed = [o for o in obs if o.get("crash")]
-    if crashed:
-        raise ToolError(f"harness worker crashed/timed out on gen case {crashed[0]['case']} ({crashed[0]['crash']})")
-    bad_setup = [o for o in obs if o["runs"][0].get("setup") != "ok"]
-    if bad_setup:
-        raise ToolError(f"harness could not set up case {bad_setup[0]['case']}: {bad_setup[0]['runs'][0].get('setup')}")
-    log(f"[gen] harness done after {time.time() - t0:.0f}s")
-    # TV_Gen and TV_Dedup judge the same observations concurrently (separate work directories)
+    # harness + judgement in batches (the observations of a batch are a few hundred MB; thorough runs have tens of thousands of cases)
     import threading
-    box = {}
-    wd2 = os.path.join(wd, "dedup")
-    os.makedirs(wd2, exist_ok=True)
+    BATCH = 5000
+    v1, v2 = [], []
+    s1 = {"generated": 0, "distinct": 0}
+    s2 = {"generated": 0, "distinct": 0}
+    for b0 in range(0, len(recs), BATCH):
+        bw = os.path.join(wd, f"batch{b0 // BATCH}")
+        os.makedirs(os.path.join(bw, "dedup"), exist_ok=True)
+        write_ndjson(os.path.join(bw, "cases.ndjson"), recs[b0:b0 + BATCH])
+        harness_run("gen", os.path.join(bw, "cases.ndjson"), os.path.join(bw, "obs.ndjson"), jobs=12)
+        # crash / setup records are short lines: scan without materialising the observations
+        with open(os.path.join(bw, "obs.ndjson")) as f:
+            for line in f:
+                if len(line) < 400 or line.count('"setup":"') != line.count('"setup":"ok"') or '"crash":""' not in line:
+                    o = json.loads(line)
+                    if o.get("crash"):
+                        raise ToolError(f"harness worker crashed/timed out on gen case {o['case']} ({o['crash']})")
+                    if any(r.get("setup") != "ok" for r in o["runs"]):
+                        raise ToolError(f"harness could not set up case {o['case']}: {[r.get('setup') for r in o['runs']]}")
+        log(f"[gen] batch {b0 // BATCH}: harness done after {time.time() - t0:.0f}s")
+        box = {}
 
-    def run_tv(name, module, d):
-        try:
-            box[name] = tv_parallel(os.path.join(SPEC, "tv", module), os.path.join(SPEC, "tv", module.replace(".tla", ".cfg")),
-                                    os.path.join(wd, "obs.ndjson"), d, nproc=8, workers=1)
-        except Exception as e:      # re-raised below
-            box[name] = e
-    th = [threading.Thread(target=run_tv, args=("gen", "TV_Gen.tla", wd)), threading.Thread(target=run_tv, args=("dedup", "TV_Dedup.tla", wd2))]
-    for t in th:
-        t.start()
-    for t in th:
-        t.join()
-    for k in ("gen", "dedup"):
-        if isinstance(box[k], Exception):
-            raise box[k]
-    (v1, s1), (v2, s2) = box["gen"], box["dedup"]
-    log(f"[gen] TV done after {time.time() - t0:.0f}s")
+        def run_tv(name, module, d):
+            try:
+                box[name] = tv_parallel(os.path.join(SPEC, "tv", module), os.path.join(SPEC, "tv", module.replace(".tla", ".cfg")),
+                                        os.path.join(bw, "obs.ndjson"), d, nproc=8, workers=1)
+            except Exception as e:      # re-raised below
+                box[name] = e
+        th = [threading.Thread(target=run_tv, args=("gen", "TV_Gen.tla", bw)), threading.Thread(target=run_tv, args=("dedup", "TV_Dedup.tla", os.path.join(bw, "dedup")))]
+        for t in th:
+            t.start()
+        for t in th:
+            t.join()
+        for k in ("gen", "dedup"):
+            if isinstance(box[k], Exception):
+                raise box[k]
+        v1 += box["gen"][0]
+        v2 += box["dedup"][0]
+        for acc, got in ((s1, box["gen"][1]), (s2, box["dedup"][1])):
+            acc["generated"] += got["generated"]
+            acc["distinct"] += got["distinct"]
+        if len(recs) > BATCH:
+            shutil.rmtree(bw, ignore_errors=True)      # keep disk use bounded in thorough runs
+        log(f"[gen] batch {b0 // BATCH}: TV done after {time.time() - t0:.0f}s")
     if len(v1) != len(recs) or len(v2) != len(recs):
         raise ToolError(f"TV judged {len(v1)}/{len(v2)} of {len(recs)} cases")
     by1 = {v["case"]: v for v in v1}
